@@ -313,6 +313,21 @@ static std::string validate(XMLGrammarPool* pool, bool schema, const std::string
 }
 
 // schema component model of a locked pool, order independent
+static std::string tyName(XSTypeDefinition* t) {
+    if (!t) return "-";
+    return "{" + narrow(t->getNamespace()) + "}" + narrow(t->getName()) + (t->getAnonymous() ? "#anon" : "") +
+           (t->getTypeCategory() == XSTypeDefinition::SIMPLE_TYPE ? "/s" : "/c");
+}
+static std::string tyChain(XSTypeDefinition* t) {       // the type and its base types up to the ur-type
+    std::string s;
+    for (int d = 0; t && d < 12; d++) {
+        s += (d ? "<-" : "") + tyName(t);
+        XSTypeDefinition* b = t->getBaseType();
+        if (!b || b == t) break;
+        t = b;
+    }
+    return s;
+}
 static std::string facetDump(XSSimpleTypeDefinition* st) {
     std::string s = "{v" + std::to_string((int)st->getVariety()) + ",f" + std::to_string(st->getDefinedFacets()) + ",x" + std::to_string(st->getFixedFacets());
     XSFacetList* fl = st->getFacets();
@@ -333,10 +348,11 @@ static std::string facetDump(XSSimpleTypeDefinition* st) {
         for (auto& x : vs) s += x + "|";
         s += "]";
     }
-    if (st->getItemType()) s += ",item=" + narrow(st->getItemType()->getName());
+    if (st->getItemType()) s += ",item=" + tyChain(st->getItemType());
+    if (st->getPrimitiveType()) s += ",prim=" + tyName(st->getPrimitiveType());
     XSSimpleTypeDefinitionList* mt = st->getMemberTypes();
-    if (mt) { s += ",members="; for (XMLSize_t i = 0; i < mt->size(); i++) s += narrow(mt->elementAt(i)->getName()) + "|"; }
-    if (st->getBaseType()) s += ",base=" + narrow(st->getBaseType()->getName());
+    if (mt) { s += ",members="; for (XMLSize_t i = 0; i < mt->size(); i++) s += tyChain(mt->elementAt(i)) + "|"; }
+    if (st->getBaseType()) s += ",chain=" + tyChain(st);
     XSAnnotationList* al = st->getAnnotations();
     if (al) for (XMLSize_t i = 0; i < al->size(); i++) s += ",ann#" + std::to_string(fnv(narrow(al->elementAt(i)->getAnnotationString())));
     return s + "}";
@@ -354,7 +370,8 @@ static std::string particleDump(XSParticle* p, int depth) {
     if (depth > 12) return "...";
     std::string s = std::to_string(p->getMinOccurs()) + ".." + (p->getMaxOccursUnbounded() ? std::string("*") : std::to_string(p->getMaxOccurs())) + ":";
     switch (p->getTermType()) {
-    case XSParticle::TERM_ELEMENT: s += "e(" + narrow(p->getElementTerm()->getNamespace()) + "|" + narrow(p->getElementTerm()->getName()) + ")"; break;
+    case XSParticle::TERM_ELEMENT: s += "e(" + narrow(p->getElementTerm()->getNamespace()) + "|" + narrow(p->getElementTerm()->getName()) +
+                                        ":" + tyName(p->getElementTerm()->getTypeDefinition()) + ")"; break;
     case XSParticle::TERM_MODELGROUP: s += groupDump(p->getModelGroupTerm(), depth); break;
     case XSParticle::TERM_WILDCARD: { XSWildcard* w = p->getWildcardTerm();
         s += "w(" + std::to_string((int)w->getConstraintType()) + "," + std::to_string((int)w->getProcessContents());
@@ -384,7 +401,7 @@ static std::string modelDump(XMLGrammarPool* pool) {
                 switch (kind) {
                 case XSConstants::ELEMENT_DECLARATION: {
                     XSElementDeclaration* e = (XSElementDeclaration*)o;
-                    s += ",t=" + narrow(e->getTypeDefinition() ? e->getTypeDefinition()->getName() : 0);
+                    s += ",t=" + tyChain(e->getTypeDefinition());
                     s += ",c" + std::to_string((int)e->getConstraintType()) + "=" + narrow(e->getConstraintValue());
                     s += std::string(",n") + (e->getNillable() ? "1" : "0") + ",a" + (e->getAbstract() ? "1" : "0");
                     s += ",sub=" + narrow(e->getSubstitutionGroupAffiliation() ? e->getSubstitutionGroupAffiliation()->getName() : 0);
@@ -404,25 +421,25 @@ static std::string modelDump(XMLGrammarPool* pool) {
                     break; }
                 case XSConstants::ATTRIBUTE_DECLARATION: {
                     XSAttributeDeclaration* a = (XSAttributeDeclaration*)o;
-                    s += ",t=" + narrow(a->getTypeDefinition() ? a->getTypeDefinition()->getName() : 0);
+                    s += ",t=" + tyChain(a->getTypeDefinition());
                     s += ",c" + std::to_string((int)a->getConstraintType()) + "=" + narrow(a->getConstraintValue());
                     break; }
                 case XSConstants::TYPE_DEFINITION: {
                     XSTypeDefinition* t = (XSTypeDefinition*)o;
-                    s += ",base=" + narrow(t->getBaseType() ? t->getBaseType()->getName() : 0) + ",fin" + std::to_string(t->getFinal());
+                    s += ",chain=" + tyChain(t) + ",fin" + std::to_string(t->getFinal());
                     if (t->getTypeCategory() == XSTypeDefinition::SIMPLE_TYPE) s += facetDump((XSSimpleTypeDefinition*)t);
                     else {
                         XSComplexTypeDefinition* c = (XSComplexTypeDefinition*)t;
                         s += ",ct" + std::to_string((int)c->getContentType()) + ",d" + std::to_string((int)c->getDerivationMethod()) + (c->getAbstract() ? ",abs" : "");
                         s += ",p=" + particleDump(c->getParticle(), 0);
-                        if (c->getSimpleType()) s += ",st=" + narrow(c->getSimpleType()->getName());
+                        if (c->getSimpleType()) s += ",st=" + tyChain(c->getSimpleType());
                         XSAttributeUseList* ul = c->getAttributeUses();
                         std::vector<std::string> us;
                         if (ul) for (XMLSize_t k = 0; k < ul->size(); k++) {
                             XSAttributeUse* u = ul->elementAt(k);
                             us.push_back(narrow(u->getAttrDeclaration()->getNamespace()) + "|" + narrow(u->getAttrDeclaration()->getName()) + (u->getRequired() ? "!" : "?") +
                                          std::to_string((int)u->getConstraintType()) + "=" + narrow(u->getConstraintValue()) +
-                                         ":" + narrow(u->getAttrDeclaration()->getTypeDefinition() ? u->getAttrDeclaration()->getTypeDefinition()->getName() : 0));
+                                         ":" + tyChain(u->getAttrDeclaration()->getTypeDefinition()));
                         }
                         std::sort(us.begin(), us.end());
                         for (auto& x : us) s += ",u=" + x;
@@ -481,19 +498,25 @@ static size_t grammarCount(XMLGrammarPool* pool) {
 static std::string doPool(const std::vector<std::string>& a) {
     bool schema = a[1] == "xsd";
     std::string mode = a[2];
-    std::string gtext = unhex(a[3]);
+    std::vector<std::string> gtexts;
+    { size_t b = 0; while (true) { size_t e = a[3].find('+', b); gtexts.push_back(unhex(a[3].substr(b, e == std::string::npos ? e : e - b)));
+                                   if (e == std::string::npos) break; b = e + 1; } }
     MemoryManager* mm = XMLPlatformUtils::fgMemoryManager;
     std::unique_ptr<XMLGrammarPoolImpl> poolA(new XMLGrammarPoolImpl(mm));
     std::string res;
     // 1. load the grammar into pool A
     {
         Dump d;
-        std::unique_ptr<SAX2XMLReaderImpl> p(mkParser(poolA.get(), schema, false));
+        std::unique_ptr<SAX2XMLReaderImpl> p(mkParser(poolA.get(), schema, gtexts.size() > 1));
         p->setErrorHandler(&d);
         try {
-            MemBufInputSource src((const XMLByte*)gtext.data(), gtext.size(), schema ? "file:///c16/g.xsd" : "file:///c16/g.dtd");
-            Grammar* g = p->loadGrammar(src, schema ? Grammar::SchemaGrammarType : Grammar::DTDGrammarType, true);
-            if (!g) return "nogrammar " + std::to_string(d.errors) + " " + d.out.substr(0, 300);
+            for (size_t gi = 0; gi < gtexts.size(); gi++) {
+                const std::string& gtext = gtexts[gi];
+                std::string sys = schema ? "file:///c16/g" + (gi + 1 == gtexts.size() ? std::string("") : std::to_string(gi)) + ".xsd" : "file:///c16/g.dtd";
+                MemBufInputSource src((const XMLByte*)gtext.data(), gtext.size(), sys.c_str());
+                Grammar* g = p->loadGrammar(src, schema ? Grammar::SchemaGrammarType : Grammar::DTDGrammarType, true);
+                if (!g) return "nogrammar " + std::to_string(d.errors) + " " + d.out.substr(0, 300);
+            }
         } catch (const XMLException& e) { return "nogrammar X:" + exName(e); }
         catch (const SAXException& e) { return "nogrammar SAX:" + narrow(e.getMessage()); }
         catch (...) { return "nogrammar unknown"; }
